@@ -28,7 +28,7 @@ EXTENDS Integers, Sequences, FiniteSets, TLC, Json, CSV, IOUtils
 CONSTANTS Names,      \* e.g. {"a", "b"}
           MaxItems,   \* items per program (brackets included)
           MaxDepth,   \* nesting depth of scopes
-          Kinds       \* scope kinds offered, subset of {"fn","fx","ar","blk","forlet","forvar","catch","cls","cx"}
+          Kinds       \* scope kinds offered, subset of {"fn","fx","ar","blk","forlet","forvar","forx","catch","cls","cx"}
 
 VARIABLES prog, depth
 vars == <<prog, depth>>
@@ -114,7 +114,7 @@ OccOf(p, par, D, j) ==
     ELSE IF it.k = "grp" THEN <<Use(it.a, chHere), Use(it.b, chHere)>>
     ELSE IF it.k = "open" THEN
         LET nameOcc == IF it.n = "" THEN <<>>
-                       ELSE IF it.s \in Named THEN <<Use(it.n, chHere)>>
+                       ELSE IF it.s \in Named \cup {"forx"} THEN <<Use(it.n, chHere)>>     \* forx: for (n in c) / for (n of c), n an assignment target
                        ELSE IF it.s \in OptNamed THEN <<[n |-> it.n, b |-> <<-j, it.n>>]>>
                        ELSE <<[n |-> it.n, b |-> (IF it.s = "forvar" THEN <<FuncOf(p, par, par[j]), it.n>> ELSE <<j, it.n>>)]>>
             RECURSIVE ParamOcc(_)
@@ -189,9 +189,9 @@ AddGrp   == \E a \in Names, b \in Names, eq \in BOOLEAN : Room /\ prog' = Append
 AddOpen  == \E s \in Kinds :
               /\ Len(prog) + depth + 1 < MaxItems /\ depth < MaxDepth
               /\ (s = "fn" => CurKind \in {"prog"} \cup FuncLike)      \* function declarations only at function level
-              /\ \E n \in (IF s \in Named \cup HeadNamed THEN Names ELSE IF s \in OptNamed THEN Names \cup {""} ELSE {""}) :
+              /\ \E n \in (IF s \in Named \cup HeadNamed \cup {"forx"} THEN Names ELSE IF s \in OptNamed THEN Names \cup {""} ELSE {""}) :
                  \E ps \in (IF s \in HasParams THEN ParamLists ELSE {NoParams}) :
-                 \E c \in (IF s \in {"forlet", "forvar"} THEN Names \cup {""} ELSE {""}) :     \* a name used in the loop condition
+                 \E c \in (IF s \in {"forlet", "forvar"} THEN Names \cup {""} ELSE IF s = "forx" THEN Names ELSE {""}) :     \* a name used in the loop condition / iterated expression
                     prog' = Append(prog, [k |-> "open", s |-> s, n |-> n, ps |-> ps, c |-> c])
               /\ depth' = depth + 1
 AddClose == depth > 0 /\ prog' = Append(prog, [k |-> "close"]) /\ depth' = depth - 1
